@@ -62,8 +62,11 @@ WalkOK(o, size, lenient) ==
     /\ \A k \in 1..Len(w) : ChunkOK(w[k], size, lenient)
     /\ (Len(w) > 0 => Eq(DLo(w[1]), Zero))
     /\ \A k \in 1..(Len(w) - 1) : Eq(DHi(w[k]), DLo(w[k + 1]))           \* ascending and contiguous
-    /\ (o.we = 0 /\ o.dse = 0 =>                                         \* a complete walk ends at the reported size
-          IF Len(w) = 0 THEN Eq(o.ds, Zero) ELSE Eq(DHi(w[Len(w)]), o.ds))
+
+\* A complete walk (NextChunk said io.EOF) ends at the reported size.
+WalkEndOK(o) ==
+    LET w == o.walk IN
+    (o.we = 0 /\ o.dse = 0) => IF Len(w) = 0 THEN Eq(o.ds, Zero) ELSE Eq(DHi(w[Len(w)]), o.ds)
 
 \* A file that cannot be opened (DecompressedSize fails) fails the walk too:
 \* "either fail with an error or yield chunks ... that end at the reported
@@ -77,11 +80,12 @@ SeeksOK(o, size, lenient) ==
         /\ s[4] \in {0, 1, 2}
         /\ (s[4] = 0 => Len(s) = 13 /\ ChunkOK(SeekChunk(s), size, lenient))
 
-\* Reader.Read to the end: an error, or exactly the reported size.
+\* Reader.Read to the end: an error, or (ReadEndOK) exactly the reported size.
 ReadOK(r, o) ==
     /\ r.e \in {0, 1, 2, 3}                  \* 4 = Read kept returning (0, nil)
     /\ (r.e = 3 => o.budget)                 \* skipped only after the budget was blown
-    /\ (r.e = 0 /\ o.dse = 0 => Eq(r.n, o.ds))
+ReadEndOK(r, o) == (r.e = 0 /\ o.dse = 0) => Eq(r.n, o.ds)
+EndOK(o) == WalkEndOK(o) /\ ReadEndOK(o.rz, o) /\ ReadEndOK(o.rl, o)
 
 Same(rec) == rec.d[1] = rec.d[2]             \* the same file gives the same result every time
 
@@ -121,12 +125,12 @@ Shape(rec, lenient) ==
 Terminated(rec) == rec.obs.term /\ ~rec.obs.budget
 Accept(rec) ==
     /\ Terminated(rec) /\ ~rec.obs.panic /\ WorkOK(rec)
-    /\ Shape(rec, FALSE) /\ OpenOK(rec.obs)
+    /\ Shape(rec, FALSE) /\ OpenOK(rec.obs) /\ EndOK(rec.obs)
     /\ (rec.valid = 1 => ValidOK(rec))
 
 ---------------------------------------------------------------------------
-(* Known findings (KNOWN_FINDINGS.txt).  The acceptance predicate has five *)
-(* parts (termination and work, panic, shape, open, valid-as-specified); a *)
+(* Known findings (KNOWN_FINDINGS.txt).  The acceptance predicate has six  *)
+(* parts (termination+work, panic, shape, open, end, valid-as-specified); a *)
 (* record that is not accepted is "known" only if EVERY failing part is    *)
 (* explained by the exact construct of a known finding, so that any other  *)
 (* violation stays a violation.  Keys names the findings involved.         *)
@@ -136,6 +140,7 @@ FailPanic(rec) == rec.obs.panic
 FailShape(rec) == ~Shape(rec, FALSE)
 FailValid(rec) == rec.valid = 1 /\ ~ValidOK(rec)
 FailOpen(rec)  == ~OpenOK(rec.obs)
+FailEnd(rec)   == ~EndOK(rec.obs)
 
 \* antiloop: a descent through index nodes that refer to themselves or to each
 \* other (the document's anti-loop rule is not applied) never ends: the budget
@@ -164,17 +169,26 @@ ExplValid(rec) == ExplValidFdAfter(rec) \/ HasTagChunk(rec, 254) \/ HasTagChunk(
 \* is handed on as it is, so the failed open looks like a clean end: NextChunk
 \* "has no more chunks" and Reader.Read is at io.EOF after 0 bytes.
 ExplOpen(rec) == rec.obs.dseof /\ Len(rec.obs.walk) = 0
+\* shorteof, later: the same while an index node is loaded in the middle of a
+\* walk or of a read: the walk / the read ends "cleanly" before the reported
+\* decompressed size, in the very call in which the source reported io.EOF.
+ExplEnd(rec) ==
+    LET o == rec.obs IN
+    /\ (~WalkEndOK(o) => o.weofsrc)
+    /\ (~ReadEndOK(o.rz, o) => o.rz.eofsrc)
+    /\ (~ReadEndOK(o.rl, o) => o.rl.eofsrc)
 
 Explained(rec) ==
     /\ ~FailPanic(rec)
     /\ (FailOpen(rec) => ExplOpen(rec))
+    /\ (FailEnd(rec) => ExplEnd(rec))
     /\ (FailTerm(rec) => ExplTerm(rec))
     /\ (FailShape(rec) => ExplShape(rec))
     /\ (FailValid(rec) => ExplValid(rec))
 
 Keys(rec) ==
     << IF FailTerm(rec) THEN "antiloop" ELSE "",
-       IF FailOpen(rec) THEN "shorteof" ELSE "",
+       IF FailOpen(rec) \/ FailEnd(rec) THEN "shorteof" ELSE "",
        IF FailShape(rec) \/ (FailValid(rec) /\ HasTagChunk(rec, 253)) THEN "fdchunk" ELSE "",
        IF FailValid(rec) /\ ~HasTagChunk(rec, 253) /\ ExplValidFdAfter(rec) THEN "fdafter" ELSE "",
        IF FailValid(rec) /\ ~HasTagChunk(rec, 253) /\ ~ExplValidFdAfter(rec) /\ HasTagChunk(rec, 254) THEN "branchchunk" ELSE "" >>
@@ -188,6 +202,7 @@ Reasons(rec) ==
        IF o.panic THEN "panic" ELSE "",
        IF o.term /\ ~o.budget /\ ~WorkOK(rec) THEN "work-not-proportional" ELSE "",
        IF WalkOK(o, rec.size, FALSE) THEN "" ELSE "chunk-walk-malformed",
+       IF EndOK(o) THEN "" ELSE "clean-end-before-the-reported-decompressed-size",
        IF OpenOK(o) THEN "" ELSE "open-failed-but-walk-or-read-ended-cleanly",
        IF SeeksOK(o, rec.size, FALSE) THEN "" ELSE "seek-result-malformed",
        IF ReadOK(o.rz, o) /\ ReadOK(o.rl, o) THEN "" ELSE "reader-result",
